@@ -42,6 +42,7 @@ def tname(t):
 
 def build(db, R=2, strlen=3, prefix=''):
     S = Schema(); S.strlen = strlen
+    S.classes = {e.__name__: e for e in db.entities.values()}      # for hybrid methods / properties (source is read by pysem)
     ents = sorted(db.entities.values(), key=lambda e: e.__name__)
     Z = z3.IntVal
     # pass 1: tables of root entities
